@@ -409,10 +409,14 @@ func oracle(p params, r *rt.Result) []rt.Finding {
 	if r.Verdict.Kind == "panic" {
 		return fail("panic:"+strings.SplitN(r.Verdict.Detail, "\n", 2)[0], r.Verdict.Detail)
 	}
-	if r.Verdict.Kind != "ok" || !ended {
+	badEnd := r.Verdict.Kind != "ok" || !ended
+	verdictFinding := func() []rt.Finding {
 		// the call returned, but something did not shut down: not what C23 states (that is C15),
 		// yet the harness cannot vouch for such an execution
 		return fail("verdict:"+r.Verdict.Kind, r.Verdict.Detail+" "+strings.Join(r.Verdict.Stuck, "; "))
+	}
+	if badEnd && (p.api != "GetBlock" || ret == "") {
+		return verdictFinding()
 	}
 	script := p.script
 	closes := strings.Contains(script, "X")
@@ -480,6 +484,9 @@ func oracle(p params, r *rt.Result) []rt.Finding {
 		default:
 			return fail("getblock:neither-block-nor-error", "returned "+ret)
 		}
+		if badEnd {
+			return verdictFinding()
+		}
 		if p.follow && conforming && follow != wantBlock {
 			return fail("getblock:second-call", "the second request returned "+follow+", want "+wantBlock)
 		}
@@ -531,7 +538,7 @@ func TestC23(t *testing.T) {
 		for i, p := range ps {
 			s := scenario(p)
 			// quick: the 12 design scenarios (6 batch shapes x 2 APIs) with <=2 deviations, the rest <=1
-			s.MinB, s.MaxB, s.Budget = 1, 1, 40*time.Second
+			s.MinB, s.MaxB, s.Budget = 1, 1, 60*time.Second
 			if i < 12 {
 				s.MaxB = 2
 			}
